@@ -58,7 +58,7 @@ TRUSTED = [
 ASSUMPTIONS = ["tree-shaped inputs (no shared or cyclic containers)", "threshold_to_diff_deeper at its default 0.33 or 0"]
 
 HEADER = ("From DD Require Import Base.PyStr Base.Value Diff.Tree Diff.DiffModel Hash.HashModel DiffIO.DiffIOModel "
-          "DiffIO.DiffIOShow Options.OptModel HashDiff.HashDiffModel HashDiff.HashDiffProofsLift HashDiff.HashDiffShow.\nLocal Open Scope Z_scope.")
+          "DiffIO.DiffIOShow Options.OptModel HashDiff.HashDiffModel HashDiff.HashDiffProofsLift HashDiff.HashDiffProofsKeys HashDiff.HashDiffShow.\nLocal Open Scope Z_scope.")
 
 E = C11.E
 Decimal = decimal.Decimal
@@ -596,9 +596,6 @@ FEATURES = [
     ("C12-enum-distance-TypeError",
      lambda t1, t2, sp, c: sp["enum"] and any(isinstance(a, E) for a in all_atoms2(t1, t2)),
      both(lambda a: "enum<%s>" % a.name if isinstance(a, E) else a)),
-    ("C12-bytes-key-distance-TypeError",
-     lambda t1, t2, sp, c: c.get("diff") == "EXC:TypeError" and any(isinstance(k, bytes) for k in all_keys2(t1, t2)),
-     both_keys(lambda k: isinstance(k, bytes), lambda k: "b<%s>" % k.decode("latin-1"))),
     ("C12-number-vs-datetime-TypeError",
      lambda t1, t2, sp, c: sp["numty"] and any(isinstance(a, (datetime.datetime, datetime.date, datetime.time)) for a in all_atoms2(t1, t2)),
      both(lambda a: "dt<%s>" % a.isoformat() if isinstance(a, (datetime.datetime, datetime.date, datetime.time)) else a)),
@@ -800,6 +797,8 @@ FIXED_RICH = [
      [C11._dt(2024, 1, 1, 10, 20, 2, 0), C11._dt(2024, 2, 1, 10, 20, 2, 0), C11._dt(2024, 3, 1, 10, 20, 2, 0)], _s(trunc="minute")),
     (C11._dt(2024, 1, 1, 10, 20, 30, 0), C11._dt(2024, 1, 1, 10, 20, 30, 0, 120), _s(tz=120)),
     ({C11._dt(2024, 1, 1, 10, 20, 30, 0): 1}, {C11._dt(2024, 1, 1, 8, 20, 30, 0, 0): 1}, _s(tz=120)),
+    (-2, C11._dt(2024, 5, 8, 15, 4, 33, 0), _s(numty=True)), ({"k": 1.5}, {"k": C11._dt(2024, 5, 8, 15, 4, 33, 0, 0)}, _s(numty=True)),
+    ([[1, 2]], [[1, {b"k": 1}]], _s()),
     (E.A, 1, _s(enum=True)), ([E.A], [1], _s(enum=True)), ({"k": E.A}, {"k": 1}, _s(enum=True)), ({E.A: 1}, {1: 1}, _s(enum=True)),
     ([E.A], [E.B], _s(enum=True)), (E.B, "x", _s(enum=True)), (E.B, "X", _s(enum=True, case=True)),
 ]
@@ -826,7 +825,7 @@ def _task(args):
             tbl, ok, _h = rec
             pairing = (sum(len(ji) for _p, ji, _x, _y in tbl), ok)
             cfg = CFG0 if knobs.get("threshold_to_diff_deeper") == 0 else CFG
-            gexpr = "lift_guard %s %s %s %s %s" % (cfg, coq_opts(sp), core.coq_bool(rep), V.to_coq(t1), V.to_coq(t2))
+            gexpr = "g2 %s %s %s %s %s" % (cfg, coq_opts(sp), core.coq_bool(rep), V.to_coq(t1), V.to_coq(t2))
             expr = "run_c12 %s %s %s %s %s %s" % (cfg, coq_opts(sp), core.coq_bool(rep), C05.coq_pairs_table(tbl), V.to_coq(t1), V.to_coq(t2))
     else:
         dv, _ = diff_verdict(t1, t2, kw, rep, **sp.get("knobs", {}))
@@ -877,26 +876,41 @@ def guard_replay(ctx, cases):
     is evaluated in Coq on every model case; inside the guard the two real engines must agree."""
     if not cases:
         return
-    inside = 0
-    for i in range(0, len(cases), 250):
-        chunk = cases[i:i + 250]
-        txt = ctx.coq_eval("c12_guards_%d" % i, HEADER, "run_c12_guards [%s]" % "; ".join(t["guard_expr"] for _e, _x, t in chunk))
+    inside = inside_b = 0
+    from concurrent.futures import ThreadPoolExecutor
+    chunks = [cases[i:i + 120] for i in range(0, len(cases), 120)]
+
+    def one(arg):
+        i, chunk = arg
+        return ctx.coq_eval("c12_guards_%d" % i, HEADER, "run_c12_guards2 [%s]" % "; ".join(t["guard_expr"] for _e, _x, t in chunk))
+    ctx.ensure_built(HEADER)
+    with ThreadPoolExecutor(max_workers=core.NCPU) as ex:
+        texts = list(ex.map(one, enumerate(chunks)))
+    for chunk, txt in zip(chunks, texts):
         if txt is None:
             return
         flags = txt.strip()
-        if len(flags) != len(chunk):
-            ctx.break_("correspondence", {"name": "c12_guards", "error": "expected %d guard values, got %d" % (len(chunk), len(flags))})
+        if len(flags) != 2 * len(chunk):
+            ctx.break_("correspondence", {"name": "c12_guards", "error": "expected %d guard values, got %d" % (2 * len(chunk), len(flags))})
             return
-        for ch, (_e, _x, t) in zip(flags, chunk):
-            if ch == "T":
+        for j, (_e, _x, t) in enumerate(chunk):
+            g, gb = flags[2 * j] == "T", flags[2 * j + 1] == "T"
+            case = {k: v for k, v in t.items() if k not in ("guard_expr", "agree")}
+            if gb and not g:
+                ctx.break_("correspondence", dict(case, name="lift_guardb_sound", what="the per-key guard holds but the relational guard does not"))
+            if gb:
+                inside_b += 1
+                ctx.count("theorem_guard:inside_per_key_guard")
+            if g:
                 inside += 1
                 ctx.count("theorem_guard:inside:%s" % ("hash_eq" if t["hash_eq"] is True else "hash_ne"))
                 if t["agree"] is not True:
-                    case = {k: v for k, v in t.items() if k not in ("guard_expr", "agree")}
                     ctx.break_("correspondence", dict(case, name="C12_hash_iff_diff_partial", what="inside lift_guard the implementation's two engines disagree"))
             else:
                 ctx.count("theorem_guard:outside")
-    ctx.note("theorem_replayed_on_implementation", "C12_hash_iff_diff_partial: %d of %d model cases are inside lift_guard; on all of them DeepHash equality == DeepDiff emptiness" % (inside, len(cases)))
+    ctx.note("theorem_replayed_on_implementation",
+             "C12_hash_iff_diff_partial: %d of %d model cases are inside lift_guard (%d of them inside the per-key guard lift_guardb of "
+             "C12_hash_iff_diff_simple_guard_partial); on all of them DeepHash equality == DeepDiff emptiness" % (inside, len(cases), inside_b))
 
 
 # --------------------------------------------------------------------------
@@ -973,6 +987,7 @@ WITNESSES = [
     ("C12_set_member_collision_refuted", {"a", "A"}, {"a"}, _s(case=True), True, (False, "empty")),
     ("C12_key_alias_refuted", {1: "x"}, {1.0: "x"}, _s(sig=2), False, (False, "empty")),
     ("C12_tag_refuted(strty)", 1, b"int:1", _s(strty=True), False, (True, "nonempty")),
+    ("bytes-key distance TypeError fixed (3adbf05)", [[1, 2]], [[1, {b"k": 1}]], _s(), False, (False, "nonempty")),
     ("C12_bool_int_list_refuted(pairing off)", [True], [1], dict(_s(numty=True), knobs={"cutoff_intersection_for_pairs": 0}), False, (False, "nonempty")),
 ]
 
